@@ -11,6 +11,8 @@ mod c01;
 #[cfg(kani)]
 mod c01p;
 #[cfg(kani)]
+mod c01m;
+#[cfg(kani)]
 mod c02;
 #[cfg(kani)]
 mod c03;
